@@ -6,8 +6,9 @@ BASE=${VERIF_SCRATCH:-/dev/shm/e2fs-verif}
 D="$BASE/baseline-off.$$"
 rm -rf "$D"; mkdir -p "$D"
 trap 'rm -rf "$D"' EXIT
-cd /repo
-git ls-files -co --exclude-standard -z | rsync -a --from0 --files-from=- /repo/ "$D"/
+R=${VERIF_REPO:-/repo}
+cd "$R"
+git ls-files -co --exclude-standard -z | rsync -a --from0 --files-from=- "$R"/ "$D"/
 cd "$D"
 rm -f config.status config.log
 ./configure --quiet CFLAGS=" -Wno-error" > "$D/.configure.log" 2>&1
